@@ -145,4 +145,3 @@ package app
 //@   ghostset after ResponseHeader.SetContentRange: rgApplied = true
 //@   assert before SetBodyStream: rgApplied && 0 <= rgStart && rgStart <= rgEnd && rgEnd < 4611686018427387904 ==> arg2 == rgEnd - rgStart + 1
 //@   assert before ResponseHeader.SetContentLength: rgApplied && 0 <= rgStart && rgStart <= rgEnd && rgEnd < 4611686018427387904 ==> arg1 == rgEnd - rgStart + 1
-
